@@ -400,6 +400,8 @@ def _battery():
     out = []
     rng = np.random.default_rng(12345)
     out.append(("one-dimensional party", np.eye(4) / 4, [1, 4]))
+    out.append(("not positive semidefinite (documented ValueError)", np.diag([1.0, -0.5, 0.25, 0.25]), [2, 2]))
+    out.append(("scalar dim that does not divide (documented ValueError)", np.eye(4) / 4, 3))
     out.append(("npt 2x2", _npt_state(2, 2, 2, 0.9, rng)[0], [2, 2]))
     out.append(("npt 3x3", _npt_state(3, 3, 3, 0.9, rng)[0], [3, 3]))
     out.append(("ppt 2x3", _sep_state(2, 3, 4, rng), [2, 3]))
@@ -621,6 +623,7 @@ for _k, _f in CLAUSES.items():
     _f.function = _FN[_k]
     _f.limit = 60
 sep_site_coverage.limit = 120
+symext_accepts.limit = 100
 sep_lu_invariant.limit = 90
 sep_exchange_invariant.limit = 90
 
@@ -658,8 +661,8 @@ def cases(tier, seed):
             for real in (False, True):
                 seeds = [seed] + ([seed + 1, seed + 2] if thorough else [])
                 for sd_ in seeds:
-                    if slow(dA, dB, terms) and not thorough and not ((terms == 3 and not real) or (terms == 9 and real)):
-                        continue
+                    if slow(dA, dB, terms) and not thorough and not ((terms == 3 and not real) or (terms == 9 and real) or (terms == 5 and not real) or (terms == 12 and real)):
+                        continue  # each of these ends in the symmetric-extension SDP (5-10 s): four samples in the quick tier
                     q = dict(dims=d, kind="sep", terms=terms, real=real, seed=sd_, dimform="list")
                     add("sep.accepts_separable", q, _sep_class(dA, dB, terms), terms >= 2)
         # dim forms and rescaled trace on cheap instances
